@@ -36,9 +36,11 @@ def keyFits (k : Str) : Bool :=
     carriage return (`write_char` refuses it at once) and a quoted or triple-quoted presentation that fits with its colon -/
 def keyPresented (k : Str) : Bool := !(k.contains 13) && keyFits k
 
-/-- what the CIF 2.0 syntax and the line limit admit (written independently of the code): no CR — a reader would take it for a
-    line terminator —, and the key has a quoted or triple-quoted presentation that, followed by its colon, keeps every line
-    within `LINE` when it starts a line -/
+/-- `keyFits` / `keyPresented` written out once more with the colon's column made explicit (`last + 4 ≤ LINE`).  NOT an independent
+    specification: it is the writer's own criterion, term for term (same case split, same `Model.tripleOk`), and equal to
+    `keyPresented` by unfolding (`keyPresented_eq_writable`).  A specification from the lexical grammar — "some admissible quoted or
+    triple-quoted presentation (`Spec.Lexical.admissible`, `linesFit`) of the key followed by `:` exists" — and its equivalence with
+    `keyPresented` are not stated or proved (review rB). -/
 def keyWritable (k : Str) : Bool :=
   !(k.contains 13) &&
   (let ls := Spec.splitLines k
@@ -49,7 +51,7 @@ def keyWritable (k : Str) : Bool :=
      decide (Spec.maxLen ls ≤ LINE) && decide ((ls.getLastD []).length + 4 ≤ LINE) && decide ((ls.headD []).length + 3 ≤ LINE)
        && (tripleOk 39 k || tripleOk 34 k))
 
-/-- the keys the writer presents are exactly the writable ones -/
+/-- the two spellings of the writer's criterion agree (by unfolding; says nothing about an independent specification) -/
 theorem keyPresented_eq_writable (k : Str) : keyPresented k = keyWritable k := by
   unfold keyPresented keyWritable keyFits
   congr 1
